@@ -363,6 +363,7 @@ var reviewedLoops = map[string]reviewedLoop{
 	"(*completion.group).wrapExcessAliases:loop#2":   {"row = row[maxColumns:] shrinks the row only if maxColumns >= 1 (rule C01.wrap-columns)", phiResliced()},
 	"(*editor.Buffers).writeNum:loop#0":              {"i counts down from len(num) with i-- every iteration (an extra i-- at i == numRegisters); exit at i <= 0", phiStepped(false)},
 	"inputrc.decodeKey:loop#1":                       {"val = val[idx+1:] with idx >= 0 every iteration: val shrinks by at least one byte; exit when no '-' is left", phiResliced()},
+	"strutil.LineSpan:loop#0":                        {"iterator over the grapheme clusters of a finite string: every iteration calls (*uniseg.Graphemes).Next, which consumes at least one byte and reports false at the end (library contract)", everyIterationCalls("(*github.com/rivo/uniseg.Graphemes).Next", "(*uniseg.Graphemes).Next")},
 	"strutil.Split:loop#0":                           {"every cycle consumes at least one byte of input (splitWord returns a strictly shorter remainder)", phiResliced("strutil.splitWord")},
 	"strutil.splitWord:loop#0":                       {"goto state machine: each state re-slices input/cur before jumping back (consumes >= 1 byte)", phiResliced()},
 	"strutil.splitWord:loop#1":                       {"same state machine", phiResliced()},
@@ -874,6 +875,44 @@ func includeBudget(p *Prog) (bool, string) {
 	})
 	if !shared {
 		return false, "the nested parser does not receive the counter of the enclosing parse: every level counts from zero"
+	}
+	// only-writer clause: the pointer to the shared counter is stored by the option that
+	// hands it down and by the lazy allocation under `p.included == nil` in do — a store
+	// anywhere else (a reset in Parse) gives every included file a counter of its own
+	for _, f := range p.RepoFuncs {
+		var bad ssa.Instruction
+		var bf FactMap
+		eachInstr(f, func(in ssa.Instruction) {
+			st, ok := isFieldStore(in, "inputrc.Parser", "included")
+			if !ok || bad != nil {
+				return
+			}
+			if fa, ok := st.Addr.(*ssa.FieldAddr); ok {
+				if _, fresh := fa.X.(*ssa.Alloc); fresh {
+					return
+				}
+			}
+			// the option closure: stores its own parameter / free variable
+			if f.Parent() != nil && fnName(f.Parent()) == "inputrc.withIncluded" {
+				return
+			}
+			// the lazy allocation: a fresh *int stored where the field is known nil
+			if _, isNew := st.Val.(*ssa.Alloc); isNew && f == DO {
+				if bf == nil {
+					bf = blockFacts(f)
+				}
+				for fc := range factsAt(bf, in) {
+					v, trueMeansNil, isNil := nilCmp(fc.Cond)
+					if isNil && fc.Val == trueMeansNil && isFieldLoad(stripConv(v), "inputrc.Parser", "included") {
+						return
+					}
+				}
+			}
+			bad = in
+		})
+		if bad != nil {
+			return false, "Parser.included (the pointer to the include counter shared by the whole parse) is also stored at " + p.IPos(bad) + " in " + fnName(f) + ": the nested parser loses the counter it was handed and counts from zero, so the bound on the number of included files is gone"
+		}
 	}
 	return true, ""
 }
